@@ -7,3 +7,4 @@ cd /verif
 rm -rf build/c02.ov && mkdir -p build/c02.ov
 bin/instr -out build/c02.ov -clock database,database/record,database/storage/hashmap,database/storage/bbolt,database/storage/fstree,database/storage/badger -harness h/c02/overlay
 go build -tags verif -overlay build/c02.ov/overlay.json -o "$1" ./h/c02
+/verif/h/c02s/build.sh /verif/build/c02s
